@@ -37,9 +37,12 @@ class GetnInstruction(MichelsonInstruction, prim='GET', args_len=1):
     @classmethod
     def execute(cls, stack: MichelsonStack, stdout: List[str], context: AbstractContext):
         pair = cast(PairType, stack.pop1())
-        pair.assert_type_in(PairType)
         index = cls.args[0].get_int()  # type: ignore
-        res = pair.access_comb(index)
+        if index == 0:
+            res = pair  # `GET 0` is the identity on any type
+        else:
+            pair.assert_type_in(PairType)
+            res = pair.access_comb(index)
         stack.push(res)
         stdout.append(format_stdout(cls.prim, [pair], [res], index))  # type: ignore
         return cls(stack_items_added=1)
@@ -49,9 +52,12 @@ class UpdatenInstruction(MichelsonInstruction, prim='UPDATE', args_len=1):
     @classmethod
     def execute(cls, stack: MichelsonStack, stdout: List[str], context: AbstractContext):
         element, pair = cast(Tuple[MichelsonType, PairType], stack.pop2())
-        pair.assert_type_in(PairType)
         index = cls.args[0].get_int()  # type: ignore
-        res = pair.update_comb(index, element)
+        if index == 0:
+            res = element  # `UPDATE 0` replaces the whole value, whatever its type
+        else:
+            pair.assert_type_in(PairType)
+            res = pair.update_comb(index, element)
         stack.push(res)
         stdout.append(format_stdout(cls.prim, [element, pair], [res], index))  # type: ignore
         return cls(stack_items_added=1)
